@@ -41,7 +41,9 @@ ASSUMPTIONS = [
     'focus items are cell addresses and defined names (strings); a focused range key or unknown address is ignored '
     'by extract and outside the domain',
     'Evaluator.evaluate(<name bound to a range>) raises ValueError on every model; it is compared as an outcome',
-    'input changes are set_cell_value calls on non-formula cells by address, or by a focused cell name',
+    'input changes are set_cell_value calls on non-formula cells, by address or by a single-cell defined name (by '
+    'the name on both models when the extracted model must have it — focused or used in the closure — else by '
+    'the address of its cell)',
     'model-compared ("wired") formulas use + - * / unary- = < SUM COUNTA IF, error and text literals over integer, '
     'float, text and boolean inputs (the function semantics is a parameter of the theorems); the "rich" family '
     '(ISERROR, DATE, YEAR, &, MAX, AVERAGE, array-valued cells, date inputs ...) is compared real extract vs real '
@@ -160,7 +162,7 @@ def py_closure(model, focus):
     names) without using extract: roots; name -> its cell / its member cells; formula cell -> what its terms
     denote (a term that is a defined name denotes the address / range key the name is bound to); range -> members"""
     from xlcalculator import xltypes
-    seen, todo = set(), list(focus)
+    seen, todo, used = set(), list(focus), set()
     while todo:
         a = todo.pop()
         if a in seen:
@@ -175,12 +177,13 @@ def py_closure(model, focus):
             for t in cell.formula.terms:
                 name = t.rsplit('!', 1)[-1]
                 if t not in model.cells and t not in model.ranges and name in model.defined_names:
+                    used.add(name)
                     t = model._defn_address(model.defined_names[name])
                 nxt.append(t)
         if a in model.ranges:
             nxt += [x for row in model.ranges[a].cells for x in row]
         todo += nxt
-    return seen
+    return seen, used
 
 
 def wire_request(wb, model, focus, sets, fuel=60):
@@ -584,6 +587,18 @@ def is_rich(wb):
                for c in wb['cells'].values())
 
 
+def apply_sets(model, sets):
+    """the input changes in order; the outcome of the first call that raises (None: all applied)"""
+    for a, v in sets:
+        try:
+            model.set_cell_value(a, v)
+        except RecursionError:
+            raise
+        except Exception as exc:  # noqa: BLE001
+            return f'set_cell_value({a!r}, {v!r}) raised ' + type(exc).__name__
+    return None
+
+
 def run_real(case):
     """everything observed on the real code for one case.  History: compile; evaluate the cells `pre` of the
     original; extract; then evaluate every focused item on both models, apply the input changes to both and
@@ -597,8 +612,13 @@ def run_real(case):
         ev = Evaluator(model)
         for a in case.pre:
             canon_result(ev.evaluate, a)
+    obs['closure'], used = py_closure(model, focus)
+    # a change addressed by a defined name goes by that name on both models when the extracted model has to
+    # have the name (focused, or used by a formula of the closure), by the address of its cell otherwise
+    have = set(focus) | used
+    sets = [(a if a not in wb.get('names', {}) or a in have else wb['names'][a], v) for a, v in sets]
+    obs['sets'] = sets
     case.line = None if case.rich else wire_request(wb, model, focus, sets)
-    obs['closure'] = py_closure(model, focus)
     snap0 = snapshot(model)
     try:
         x = ModelCompiler.extract(model, list(focus))
@@ -617,25 +637,21 @@ def run_real(case):
     if case.order == 'x':
         obs['x0'] = [canon_result(ex.evaluate, f) for f in focus]
         obs['pure_eval'] = diff_snap(snap0, snapshot(model))
-        for a, v in sets:
-            x.set_cell_value(a, v)
+        obs['set_x'] = apply_sets(x, sets)
         obs['x1'] = [canon_result(ex.evaluate, f) for f in focus]
         obs['pure_sets'] = diff_snap(snap0, snapshot(model))
         obs['m0'] = [canon_result(em.evaluate, f) for f in focus]
-        for a, v in sets:
-            model.set_cell_value(a, v)
+        obs['set_m'] = apply_sets(model, sets)
         obs['m1'] = [canon_result(em.evaluate, f) for f in focus]
     else:
         obs['m0'] = [canon_result(em.evaluate, f) for f in focus]
         snap1 = snapshot(model)
         obs['x0'] = [canon_result(ex.evaluate, f) for f in focus]
         obs['pure_eval'] = diff_snap(snap1, snapshot(model))
-        for a, v in sets:
-            model.set_cell_value(a, v)
+        obs['set_m'] = apply_sets(model, sets)
         obs['m1'] = [canon_result(em.evaluate, f) for f in focus]
         snap2 = snapshot(model)
-        for a, v in sets:
-            x.set_cell_value(a, v)
+        obs['set_x'] = apply_sets(x, sets)
         obs['x1'] = [canon_result(ex.evaluate, f) for f in focus]
         obs['pure_sets'] = diff_snap(snap2, snapshot(model))
     return obs
@@ -650,11 +666,11 @@ def gen_sets(rng, wb, focus, model_cells=None):
     sets = []
     for _ in range(rng.randint(1, 3)):
         r = rng.random()
-        focused_names = [f for f in focus if f in wb.get('names', {})
-                         and not isinstance(wb['cells'][wb['names'][f]], tuple)]
+        # single-cell names bound to an input cell: focused or not, their cell inside or outside the focus
+        input_names = [n for n, t in wb.get('names', {}).items() if not isinstance(wb['cells'].get(t), tuple)]
         v = rng.randint(-9, 30) if rng.random() < 0.8 else rng.choice([0, 0, 2.5, 'ab', True])
-        if focused_names and r < 0.2:
-            sets.append((rng.choice(focused_names), v))
+        if input_names and r < 0.35:
+            sets.append((rng.choice(input_names), v))
         elif inputs:
             sets.append((rng.choice(inputs), v))
     return sets
@@ -904,7 +920,7 @@ def classify_case(res, c, r):
                 # checked real extract vs real original with the closure computed by the harness
                 res.count('compiled-model-outside-WF')
                 d = None
-        inp = {'workbook': describe(c.wb), 'focus': list(c.focus), 'sets': c.sets,
+        inp = {'workbook': describe(c.wb), 'focus': list(c.focus), 'sets': c.sets, 'sets_applied': obs.get('sets'),
                'evaluated_before': list(c.pre), 'order': c.order, 'abstract': wb_to_json(c.wb)}
         res.evaluations += 1
         res.count('shape:' + c.tag)
@@ -915,6 +931,8 @@ def classify_case(res, c, r):
         res.count('history:' + ('fresh original' if not c.pre else 'fully evaluated original'
                                 if len(c.pre) == len(c.wb['cells']) else 'partly evaluated original'))
         res.count('order:' + ('extract evaluated first' if c.order == 'x' else 'original evaluated first'))
+        if any(a in c.wb.get('names', {}) for a, _ in obs.get('sets') or []):
+            res.count('changes:some addressed by a defined name')
         # the closure: computed by the harness from the real original; for the model-compared family also by
         # the Lean Spec (they must coincide: drift otherwise, and both are demanded of the extract)
         closure = set(obs['closure'])
@@ -949,12 +967,16 @@ def classify_case(res, c, r):
             res.count('value:' + ('error' if v.startswith('E:') else 'raises' if v.startswith('X:') else
                                   {'I': 'integer', 'F': 'float', 'T': 'text', 'B': 'boolean', 'Z': 'blank',
                                    'D': 'date', 'A': 'array'}.get(v[:1], 'other')))
+        if obs.get('set_x') != obs.get('set_m'):
+            res.violations.append({'what': 'the same input changes cannot be applied to both models', 'input': inp,
+                                   'expected': obs.get('set_m') or 'applied (as on the original)',
+                                   'got': obs.get('set_x') or 'applied'})
         # 1. the property: focused addresses evaluate alike, before and after the changes
         bad = False
         for i, f in enumerate(c.focus):
             for phase, xr, mr in (('before', obs['x0'][i], obs['m0'][i]), ('after', obs['x1'][i], obs['m1'][i])):
                 if same_value(xr, mr):
-                    return
+                    continue
                 bad = True
                 res.violations.append({'what': f'focused {f} evaluates differently in the extracted model '
                                                f'({phase} the input changes)', 'input': inp,
@@ -987,7 +1009,7 @@ def classify_case(res, c, r):
                               'real': {k: keys[k] for k in model_keys}})
         for i, f in enumerate(c.focus):
             if f in rnames:
-                return
+                continue
             if not close_value(obs['m0'][i], spec0[i]) or not close_value(obs['m1'][i], spec1[i]):
                 res.drift.append({'input': inp, 'what': f'evaluator model on the original at {f}',
                                   'model': [spec0[i], spec1[i]], 'real': [obs['m0'][i], obs['m1'][i]]})
